@@ -5,6 +5,7 @@ package checks
 import (
 	"encoding/json"
 	"errors"
+	"fmt"
 	"sync/atomic"
 	"time"
 
@@ -31,7 +32,15 @@ var errCopyHangs = errors.New("verif: Copy did not return within 60s")
 // goroutine is left behind, blocked).
 func boundedCopy(f func() error) error {
 	done := make(chan error, 1)
-	go func() { done <- f() }()
+	go func() {
+		// a panic inside the code under test is a verdict (the call fails), never a crash of the check
+		defer func() {
+			if r := recover(); r != nil {
+				done <- fmt.Errorf("verif: Copy panicked: %v", r)
+			}
+		}()
+		done <- f()
+	}()
 	limit := 60 * time.Second
 	if copyHangs.Load() > 0 {
 		limit = 3 * time.Second // the verdict is already a violation; do not spend a minute on every further case
